@@ -19,55 +19,66 @@ sys.path.insert(0, os.path.join(common.VERIF, "tools"))
 import py2lean  # noqa: E402
 
 LEAN = os.path.join(common.VERIF, "lean")
-COMMITTED = os.path.join(LEAN, "GffGen", "Bins.lean")
-PROOF = os.path.join(LEAN, "GffProofs", "Gen", "BinsEq.lean")
+
+TIES = {
+    "bins": {"module": "gffutils.bins", "translate": py2lean.translate, "generated": os.path.join("GffGen", "Bins.lean"),
+             "proof": os.path.join("GffProofs", "Gen", "BinsEq.lean"),
+             "theorem": "GffProofs.Gen.bins_eq_model : GffGen.bins = GffModel.Bins.bins (all integers, both conventions, "
+                        "both modes)"},
+    "criteria": {"module": "gffutils.merge_criteria", "translate": py2lean.translate_criteria,
+                 "generated": os.path.join("GffGen", "Crit.lean"), "proof": os.path.join("GffProofs", "Gen", "CritEq.lean"),
+                 "theorem": "GffProofs.Gen.*_eq / defaultCriteria_eq : CritExpr.evalB of every translated criterion of "
+                            "merge_criteria.py = the criterion of GffModel.Merge (all features incl. None coordinates, all "
+                            "thresholds)"},
+}
 
 
-def check(timeout=900):
-    import gffutils.bins
-    path = gffutils.bins.__file__
+def check(kind="bins", timeout=900):
+    import importlib
+    tie = TIES[kind]
+    path = importlib.import_module(tie["module"]).__file__
     src = open(path, encoding="utf-8").read()
-    out = {"source": path, "source_sha1": hashlib.sha1(src.encode("utf-8")).hexdigest(),
-           "theorem": "GffProofs.Gen.bins_eq_model : GffGen.bins = GffModel.Bins.bins (all integers, both conventions, both modes)"}
+    out = {"kind": kind, "source": path, "source_sha1": hashlib.sha1(src.encode("utf-8")).hexdigest(), "theorem": tie["theorem"]}
+    base = os.path.basename(path)
     try:
-        text = py2lean.translate(src)
+        text = tie["translate"](src)
     except py2lean.Unsupported as ex:
-        out.update(status="unavailable", reason="bins.py is outside the translator's fragment: %s" % ex)
+        out.update(status="unavailable", reason="%s is outside the translator's fragment: %s" % (base, ex))
         return out
     except SyntaxError as ex:
-        out.update(status="unavailable", reason="bins.py does not parse: %s" % ex)
+        out.update(status="unavailable", reason="%s does not parse: %s" % (base, ex))
         return out
     out["translation_sha1"] = hashlib.sha1(text.encode("utf-8")).hexdigest()
-    committed = open(COMMITTED, encoding="utf-8").read() if os.path.exists(COMMITTED) else None
+    committed_path = os.path.join(LEAN, tie["generated"])
+    committed = open(committed_path, encoding="utf-8").read() if os.path.exists(committed_path) else None
     if text == committed:
-        out.update(status="holds", how="translation identical to lean/GffGen/Bins.lean; equality proof checked by lake build")
+        out.update(status="holds", how="translation identical to lean/%s; equality proofs checked by lake build" % tie["generated"])
         return out
     # the source changed: re-check translation + proof in a scratch directory (the lake workspace is left alone)
     scratch = tempfile.mkdtemp(prefix="gentie-", dir="/var/tmp")
     try:
         os.makedirs(os.path.join(scratch, "GffGen"))
-        gen = os.path.join(scratch, "GffGen", "Bins.lean")
+        gen = os.path.join(scratch, tie["generated"])
         with open(gen, "w", encoding="utf-8") as fh:
             fh.write(text)
-        proof = os.path.join(scratch, "BinsEqRegenerated.lean")          # not under GffProofs/: that package is the built one
-        shutil.copy(PROOF, proof)
+        proof = os.path.join(scratch, "EqRegenerated.lean")          # not under GffProofs/: that package is the built one
+        shutil.copy(os.path.join(LEAN, tie["proof"]), proof)
         p = subprocess.run(["lake", "env", "printenv", "LEAN_PATH"], cwd=LEAN, stdout=subprocess.PIPE, text=True, timeout=120)
         env = dict(os.environ, LEAN_PATH=scratch + ":" + p.stdout.strip())
         log = ""
-        for src_, olean in ((gen, os.path.join(scratch, "GffGen", "Bins.olean")),
-                            (proof, None)):
+        for src_, olean in ((gen, gen[:-5] + ".olean"), (proof, None)):
             cmd = ["lean", src_] + (["-o", olean] if olean else [])
             q = subprocess.run(cmd, cwd=scratch, env=env, stdout=subprocess.PIPE, stderr=subprocess.STDOUT, text=True,
                                timeout=timeout)
             log += q.stdout
             if q.returncode != 0:
-                out.update(status="broken", how="regenerated translation differs from lean/GffGen/Bins.lean",
+                out.update(status="broken", how="regenerated translation differs from lean/%s" % tie["generated"],
                            reason="%s does not check against the regenerated translation"
-                                  % ("the translation itself" if olean else "GffProofs/Gen/BinsEq.lean (bins_eq_model)"),
+                                  % ("the translation itself" if olean else "lean/" + tie["proof"]),
                            lean_output=log[-1500:], translation=text)
                 return out
-        out.update(status="holds", how="regenerated translation differs from lean/GffGen/Bins.lean (the source changed); "
-                                       "translation and equality proof re-checked in a scratch directory")
+        out.update(status="holds", how="regenerated translation differs from lean/%s (the source changed); translation and "
+                                       "equality proofs re-checked in a scratch directory" % tie["generated"])
         return out
     except subprocess.TimeoutExpired:
         out.update(status="unavailable", reason="re-checking the regenerated translation timed out")
@@ -78,4 +89,5 @@ def check(timeout=900):
 
 if __name__ == "__main__":
     import json
-    print(json.dumps({k: v for k, v in check().items() if k != "translation"}, indent=1))
+    for kind in (sys.argv[1:] or list(TIES)):
+        print(json.dumps({k: v for k, v in check(kind).items() if k != "translation"}, indent=1))
